@@ -10,7 +10,7 @@ import sys
 import time
 
 ROOT = os.path.dirname(os.path.dirname(os.path.abspath(__file__)))
-REPO = "/repo"
+REPO = os.environ.get("VERIF_REPO") or "/repo"  # VERIF_REPO: development aid (scratch worktree of /repo); registered checks use /repo
 WORK = os.path.join(ROOT, "work")
 COQ = os.path.join(ROOT, "coq")
 BIN = os.path.join(WORK, "bin")
@@ -29,7 +29,7 @@ TRUSTED_BASE_COMMON = [
 def go_env(extra=None):
     env = dict(os.environ)
     env.update({"GOFLAGS": "-mod=mod", "GOPROXY": "off", "GOSUMDB": "off", "GOTOOLCHAIN": "local",
-                "CGO_ENABLED": env.get("CGO_ENABLED", "0"), "VERIF_BIN": BIN})
+                "CGO_ENABLED": env.get("CGO_ENABLED", "0"), "VERIF_BIN": BIN, "VERIF_REPO": REPO})
     if extra:
         env.update(extra)
     return env
@@ -96,9 +96,13 @@ def build_go(force=False):
         env = go_env()
         log = []
         sumsrc = os.path.join(REPO, "go.sum")
+        modfile = os.path.join(WORK, "harness.mod")
+        mod = open(os.path.join(HARNESS, "go.mod")).read().replace("=> /repo", "=> " + REPO)
+        if not os.path.exists(modfile) or open(modfile).read() != mod:
+            open(modfile, "w").write(mod)
         if os.path.exists(sumsrc):
-            subprocess.run(["cp", sumsrc, os.path.join(HARNESS, "go.sum")])
-        rc, out = sh(["go", "build", "-tags", "verif", "-o", os.path.join(BIN, "vh"), "./cmd/vh"], cwd=HARNESS, env=env, timeout=900)
+            subprocess.run(["cp", sumsrc, os.path.join(WORK, "harness.sum")])
+        rc, out = sh(["go", "build", "-modfile", modfile, "-tags", "verif", "-o", os.path.join(BIN, "vh"), "./cmd/vh"], cwd=HARNESS, env=env, timeout=900)
         log.append(out)
         if rc != 0:
             return False, "harness build failed:\n" + out
